@@ -55,6 +55,8 @@ type Sched struct {
 	Horizon  time.Duration
 	start    time.Time
 	preempt  int // per-mille probability of a context switch at a yield point
+	spawn1st int   // per-mille probability that a spawned task runs before its parent continues
+	prefer   *task // set by Go: the controller releases this task next (no tape draw)
 	dying    bool
 	mainDone bool
 	stop     string // non-empty: why the run was cut short
@@ -264,6 +266,7 @@ func Go(site string, fn func()) {
 	s.next++
 	t := &task{id: s.next, name: site, wake: make(chan struct{}), kill: make(chan struct{}), site: "spawn"}
 	s.tasks = push(s.tasks, t)
+	parent := s.cur
 	s.unlock()
 	// The go statement itself stays visible to the race detector: the
 	// spawn edge parent -> child is part of the program's happens-before.
@@ -274,6 +277,19 @@ func Go(site string, fn func()) {
 	default:
 	}
 	unhide()
+	// A go statement is a scheduling point: the child may run - even to its
+	// end - before the parent executes its next statement ("dies at birth").
+	if parent == nil {
+		return
+	}
+	if s.spawn1st > 0 && s.tape.Intn(1000, "spawnfirst") >= 1000-s.spawn1st {
+		s.lock()
+		s.prefer = t
+		s.unlock()
+		s.park(parent, "go")
+		return
+	}
+	s.maybePreempt(parent, "go")
 }
 
 //go:norace
@@ -715,7 +731,21 @@ func (s *Sched) runSched(main func()) {
 			}
 		}
 		k := 0
-		if len(run) > 1 {
+		pref := -1
+		s.mu.Lock()
+		if s.prefer != nil {
+			for i, t := range run {
+				if t == s.prefer {
+					pref = i
+					break
+				}
+			}
+			s.prefer = nil
+		}
+		s.mu.Unlock()
+		if pref >= 0 {
+			k = pref
+		} else if len(run) > 1 {
 			k = s.tape.Intn(len(run), "sched")
 		}
 		t := run[k]
@@ -813,8 +843,11 @@ func Execute(t *testing.T, sp Spec) (out *Outcome) {
 			pms := [...]int{0, 0, 5, 30, 150, 400}
 			s.preempt = pms[tape.Intn(len(pms), "knob.preempt")]
 			tape.shuffle = tape.Intn(2, "knob.selshuffle") == 1
+			sfs := [...]int{0, 0, 0, 100, 300}
+			s.spawn1st = sfs[tape.Intn(len(sfs), "knob.spawnfirst")]
 			if sp.Serial {
 				s.preempt = 0
+				s.spawn1st = 0
 			}
 			s.runSched(func() { sp.Main(rc) })
 		})
